@@ -210,6 +210,7 @@ def run_case(case):
     geo = {"tracer": tr, "model": case["model"], "generator": case["generator"], "antennas": case["antennas"], "offcone": off, "weight_min": wm, "interp": ai,
            "writer": case["writer"], "triggers": case["triggers"]}
     nrecv = noff = nskip = 0
+    tracer_failed = False
     try:
         if case["generator"] == "list" and case["salt"] % 2 == 0:
             # another kernel with another medium / tracer, run first on the very same vertices and antenna positions, must leave no trace
@@ -241,6 +242,7 @@ def run_case(case):
             except ValueError as e_:
                 if tr == "basic" and hasattr(e_, "observables"):
                     v.check(False, "the configured ray tracer answers inside the kernel (no exception)", error=str(e_), **dict(geo, **e_.observables))
+                    tracer_failed = True
                     break
                 raise
             thrown = generator.count - count0
@@ -344,7 +346,9 @@ def run_case(case):
                 v.check(all(c[1] is ants for c in trig_calls), "trigger functions are given the kernel's antennas", **geo)
                 if isinstance(wr, RecWriter) and case["triggers"] == "dict":
                     v.check(isinstance(wr.adds[-1]["triggered"], dict) and set(wr.adds[-1]["triggered"]) == {"global", "x"}, "writer receives every trigger result", **geo)
-        if case["writer"] == "hdf5":
+        if case["writer"] == "hdf5" and tracer_failed:
+            wr.close()          # the event loop was left when the tracer failed: nothing to count
+        elif case["writer"] == "hdf5":
             wr.close()
             with pyrex.File(os.path.join(tmpdir, "k.h5"), "r") as rd:
                 v.check(len(rd) == case["events"], "real HDF5 writer stored one entry per kernel event", stored=len(rd), events=case["events"], **geo)
